@@ -52,10 +52,10 @@ def reason_template(eng):
                                   info.index("CloseGroupRejection"): (), info.index("Stale"): ()})
 
 
-def in_manager(eng, src, probes):
-    maps = {"liveness_states": src.map("M.live", 256, liveness_template(), probes),
-            "trust_scores": src.map("M.trust", 256, fpv(0.0), probes),
-            "marked_for_eviction": src.map("M.marked", 256, reason_template(eng), probes)}
+def in_manager(eng, src, probes, finite=None):
+    maps = {"liveness_states": src.map("M.live", 256, liveness_template(), probes, finite=finite),
+            "trust_scores": src.map("M.trust", 256, fpv(0.0), probes, finite=finite),
+            "marked_for_eviction": src.map("M.marked", 256, reason_template(eng), probes, finite=finite)}
     cfg = {"max_consecutive_failures": src.bv("cfg.max_failures", 32), "min_trust_threshold": src.f64("cfg.min_trust")}
     return maps, cfg
 
@@ -104,7 +104,7 @@ def same_live_counts(m0, m1, k):
     return z3.And(pres(m1, k) == pres(m0, k), z3.Implies(pres(m0, k), z3.And(a.f[1] == b.f[1], a.f[2] == b.f[2], a.f[3] == b.f[3])))
 
 
-OPS = ["record_failure", "record_success", "update_trust_score", "record_eviction", "remove_node", "query"]
+OPS = ["record_failure", "record_success", "update_trust_score", "record_eviction", "remove_node", "query", "candidates"]
 
 
 def build_eviction(ck, op, src, obs=None):
@@ -112,7 +112,7 @@ def build_eviction(ck, op, src, obs=None):
     nid, k = node_id(src, "n")
     oid, k2 = node_id(src, "other")
     probes = {"cand": k, "other": k2}
-    maps0, cfg = in_manager(eng, src, probes)
+    maps0, cfg = in_manager(eng, src, probes, finite=({"cand": nid, "other": oid} if op == "candidates" else None))
     score_in = src.f64("in.score")
     hyps = list(src.hyps) + [k2 != k, z3.UGE(cfg["max_consecutive_failures"], 1),
                              z3.ULT(sel(maps0["liveness_states"], k).f[1], bv(1 << 31, 32)), z3.ULT(sel(maps0["liveness_states"], k).f[2], bv(1 << 62, 64)),
@@ -128,7 +128,18 @@ def build_eviction(ck, op, src, obs=None):
         rM = eng.alloc(st, M)
         rn = eng.alloc(st, nid)
         F = lambda n: ck.fn(r"eviction::<impl at [^>]*>::" + n + "$")  # noqa: E731
-        if op == "query":
+        if op == "candidates":
+            st1, cands = eng.call(F("get_eviction_candidates"), [rM], st)
+            pc = st1.pc
+            maps1 = maps0
+            occ = {}
+            for lbl, kk in (("cand", k), ("other", k2)):
+                t = bv(0, 64)
+                for i, e in enumerate(cands.elems):
+                    t = t + z3.If(z3.And(z3.ULT(bv(i, 64), cands.len), key_bv(e.f[0]) == kk), bv(1, 64), bv(0, 64))
+                occ[lbl] = t
+            rv = {"occ": occ, "n": cands.len}
+        elif op == "query":
             st1, reason = eng.call(F("get_eviction_reason"), [rM, rn], st)
             st2, se = eng.call(F("should_evict"), [rM, rn], st)
             st3, set_ = eng.call(F("should_evict_for_trust"), [rM, rn], st)
@@ -152,14 +163,23 @@ def build_eviction(ck, op, src, obs=None):
             rv = None
     else:
         pc = z3.BoolVal(True)
-        maps1 = obs_maps(eng, obs, "post", probes) if op != "query" else maps0
-        if op == "query":
+        maps1 = obs_maps(eng, obs, "post", probes) if op not in ("query", "candidates") else maps0
+        if op == "candidates":
+            rv = {"occ": {"cand": bv(int(obs["occ_cand"]), 64), "other": bv(int(obs["occ_other"]), 64)}, "n": bv(int(obs["n"]), 64)}
+        elif op == "query":
             r = obs["reason"]
             rv = {"some": z3.BoolVal(r is not None), "variant": bv(info.index(r["variant"]) if r else 0, 8), "failures": bv(r.get("failures", 0) if r else 0, 32),
                   "should_evict": z3.BoolVal(bool(obs["should_evict"])), "should_evict_for_trust": z3.BoolVal(bool(obs["should_evict_for_trust"])),
                   "consecutive": bv(int(obs["consecutive"]), 32)}
     live1, trust1, marked1 = maps1["liveness_states"], maps1["trust_scores"], maps1["marked_for_eviction"]
-    if op == "query":
+    if op == "candidates":
+        def has_reason(kk):
+            return z3.Or(pres(marked0, kk), z3.And(pres(live0, kk), z3.UGE(sel(live0, kk).f[1], cfg["max_consecutive_failures"])),
+                         z3.And(pres(trust0, kk), z3.fpLT(sel(trust0, kk), cfg["min_trust_threshold"])))
+        G["candidate_list_names_exactly_the_peers_with_a_reason_each_once"] = z3.And(
+            rv["occ"]["cand"] == z3.If(has_reason(k), bv(1, 64), bv(0, 64)), rv["occ"]["other"] == z3.If(has_reason(k2), bv(1, 64), bv(0, 64)),
+            rv["n"] == rv["occ"]["cand"] + rv["occ"]["other"])
+    elif op == "query":
         by_fail = z3.And(pres(live0, k), z3.UGE(sel(live0, k).f[1], cfg["max_consecutive_failures"]))
         by_trust = z3.And(pres(trust0, k), z3.fpLT(sel(trust0, k), cfg["min_trust_threshold"]))
         marked = pres(marked0, k)
@@ -220,7 +240,7 @@ def run(tier):
     ck.out.bounds = ["EvictionManager: one event (failure / success / trust update / mark / forget) or one query from an ARBITRARY manager state (three HashMaps as SMT arrays over 256-bit ids), two distinct symbolic node ids, symbolic thresholds",
                      "consecutive counter < 2^31, totals < 2^62 (overflow of the statistics counters needs that many events)"] + c16_selector.BOUNDS
     ck.out.outside = ["DhtCoreEngine::{evict_node, handle_node_failure, select_query_peers, select_storage_peers} (async)", "the maintenance task that applies evictions",
-                      "get_eviction_candidates (iterates hash maps: enumeration order not modelled)"] + c16_selector.OUTSIDE
+                      "get_eviction_candidates on managers tracking more than two peers (the listing obligation uses a finite manager with two arbitrary peers)"] + c16_selector.OUTSIDE
     ck.out.assumptions = ["single-threaded execution"] + c16_selector.ASSUMPTIONS
     ck.out.trusted.append("z3 4.8.12 / z3 5.1 / cvc5 1.0 portfolio")
     return ck.finish("./check C16 --tier " + tier)
